@@ -5,6 +5,7 @@ import (
 	"fmt"
 	"math/big"
 	"strings"
+	"time"
 
 	dbm "github.com/33cn/chain33/common/db"
 	"github.com/33cn/chain33/common/difficulty"
@@ -187,6 +188,12 @@ func RunCrash(r *vx.Run, maxN int) {
 		cc.byHash[string(b.Hash(env.Cfg))] = b
 	}
 	item := 0
+	if onlyShape == "" {
+		item++
+		if r.Mine(item) {
+			genesisCrash(r, env, cc)
+		}
+	}
 	for _, h := range hs {
 		for _, b := range h.blocks {
 			cc.byHash[string(b.Hash(env.Cfg))] = b
@@ -346,6 +353,90 @@ func RunCrash(r *vx.Run, maxN int) {
 				}
 			}
 			r.SampleN(5, map[string]interface{}{"tree": h.sh.String(), "order": order, "durable_write_units": N, "crash_points": N + 1})
+		}
+	}
+}
+
+// genesisCrash: the history starts on EMPTY databases: the node creates the genesis block and receives
+// the first two trunk blocks; the process stops after every number of durable writes (so also right
+// after the genesis batch, when the stored height is 0); restart, judge, continue.
+func genesisCrash(r *vx.Run, env *Env, cc *crashCtx) {
+	blocks := []*types.Block{env.Trunk[1], env.Trunk[2]}
+	txs := TxHashes(blocks)
+	run := func(dieAfter int) (*vnode.Node, [][]string) {
+		dbm.VDBControl(true, dieAfter)
+		n := vnode.New(vnode.Options{CfgEdit: env.CfgEdit})
+		n.WaitHeight(0, 10*time.Second)
+		reached := [][]string{nil, chainOf(n)}
+		for _, b := range blocks {
+			_ = n.Deliver(vnode.Broadcast, b, "peer")
+			reached = append(reached, chainOf(n))
+		}
+		return n, reached
+	}
+	u, reached := run(-1)
+	final := u.Observe(txs)
+	u.Close()
+	log := dbm.VDBControl(false, -1)
+	u.Forget()
+	N := len(log)
+	r.Seen("histories", "from-empty-databases")
+	for c := 0; c <= N; c++ {
+		c := c
+		judge := func() string {
+			t, _ := run(c)
+			t.Close()
+			snap := t.Snapshot()
+			if img := dbm.VDBCrashImage(); img != nil {
+				snap = vnode.Snapshot{"blockchain": img[t.ID+"/blockchain"], "store": img[t.ID+"/store"]}
+			}
+			dbm.VDBControl(false, -1)
+			t.Forget()
+			var bad string
+			p := vx.Catch(func() {
+				n2 := vnode.New(vnode.Options{Snap: snap, CfgEdit: env.CfgEdit})
+				defer func() { n2.Close(); n2.Forget() }()
+				if !n2.WaitHeight(0, 10*time.Second) {
+					bad = "after the restart the node has no block at all (height -1) and does not create one"
+					return
+				}
+				chain := chainOf(n2)
+				if w := cc.consistent(n2, chain); w != "" {
+					bad = "inconsistent after restart: " + w
+					return
+				}
+				ok := false
+				for _, rc := range reached {
+					if isPrefix(chain, rc) {
+						ok = true
+					}
+				}
+				if !ok {
+					bad = "the chain after restart is neither one the uninterrupted run reached nor a prefix of one"
+					return
+				}
+				for round := 0; round < 2; round++ {
+					for _, b := range blocks {
+						_ = n2.Deliver(vnode.Broadcast, b, "peer")
+					}
+				}
+				if d := n2.Observe(txs).Diff(final, 5); len(d) > 0 {
+					bad = "continued processing does not reach the uninterrupted final chain: " + strings.Join(d, "; ")
+				}
+			})
+			if p != "" {
+				bad = "restart " + p
+			}
+			return bad
+		}
+		bad := judge()
+		r.Count("executions", 1)
+		r.Count("crash_points", 1)
+		r.Count("crash_points_from_empty_databases", 1)
+		r.Count("transitions", int64(c))
+		r.Seen("states", fmt.Sprintf("from-empty|%d", c))
+		if bad != "" {
+			r.Violate("crash:from-empty-databases:"+vx.Norm(bad, 50), fmt.Sprintf("node started on empty databases (genesis + 2 blocks), process stops after %d of %d durable writes: %s", c, N, bad), map[string]interface{}{"from_empty": true, "crash_after_units": c, "units": N}, func() string { return vx.Norm(judge(), 50) })
 		}
 	}
 }
